@@ -170,17 +170,50 @@ def sanitizer_report(stderr):
     return kind, frame
 
 
-def run_pass(binp, prop, tier, seed, cases, jobs, deadline_ms, timeout, env=None, prefix=None, extra=None):
-    """Run `cases` cases split over `jobs` worker processes. Returns dict with merged results."""
+def empty_merge():
+    return {"cases": 0, "evals": 0, "shapes": set(), "counters": {}, "hooks": {}, "maxf": {}, "samples": {},
+            "viols": [], "truncated": False, "harness_errors": [], "inconclusive": [], "notes": []}
+
+
+def merge_into(m, mm):
+    for k in ("cases", "evals"):
+        m[k] += mm[k]
+    m["shapes"].update(mm["shapes"])
+    m["truncated"] |= mm["truncated"]
+    for k, v in mm["counters"].items():
+        m["counters"][k] = m["counters"].get(k, 0) + v
+    for k, v in mm["hooks"].items():
+        m["hooks"][k] = m["hooks"].get(k, 0) + v
+    for k, v in mm["maxf"].items():
+        m["maxf"][k] = max(m["maxf"].get(k, 0.0), v)
+    for k, v in mm["samples"].items():
+        m["samples"].setdefault(k, [])
+        if len(m["samples"][k]) < 1:
+            m["samples"][k].extend(v[:1])
+    for kk in ("viols", "harness_errors", "inconclusive", "notes"):
+        m[kk].extend(mm[kk])
+    return m
+
+
+def run_pass(binp, prop, tier, seed, cases, jobs, deadline_ms, timeout, env=None, prefix=None, extra=None,
+             use_limits=True):
+    """Run `cases` cases split over `jobs` worker processes (`prefix + [binp]` is the program; with a
+    cargo-miri prefix binp is None). Returns the merged observations."""
+    prog = (prefix or []) + ([binp] if binp else [])
     results = [None] * jobs
     threads = []
 
+    def worker_cmd(i, announce=False):
+        cmd = prog + ["worker", prop, "--tier", tier, "--seed", str(seed), "--shard", str(i), "--nshards", str(jobs),
+                      "--cases", str(cases)]
+        if announce:
+            cmd += ["--announce"]
+        else:
+            cmd += ["--deadline-ms", str(deadline_ms)]
+        return cmd + (extra or [])
+
     def one(i):
-        cmd = (prefix or []) + [binp, "worker", prop, "--tier", tier, "--seed", str(seed), "--shard", str(i),
-                                "--nshards", str(jobs), "--cases", str(cases), "--deadline-ms", str(deadline_ms)]
-        if extra:
-            cmd += extra
-        results[i] = run_proc(cmd, env=env, timeout=timeout)
+        results[i] = run_proc(worker_cmd(i), env=env, timeout=timeout, use_limits=use_limits)
 
     for i in range(jobs):
         th = threading.Thread(target=one, args=(i,))
@@ -188,41 +221,29 @@ def run_pass(binp, prop, tier, seed, cases, jobs, deadline_ms, timeout, env=None
         threads.append(th)
     for th in threads:
         th.join()
-    merged = {"cases": 0, "evals": 0, "shapes": set(), "counters": {}, "hooks": {}, "maxf": {}, "samples": {},
-              "viols": [], "truncated": False, "harness_errors": [], "inconclusive": [], "notes": []}
+    merged = empty_merge()
     for i, r in enumerate(results):
         if r.summary:
             s = r.summary
-            merged["cases"] += s["cases"]
-            merged["evals"] += s["evals"]
-            merged["shapes"].update(s["shapes"])
-            merged["truncated"] |= s["truncated"]
-            for k, v in s["counters"].items():
-                merged["counters"][k] = merged["counters"].get(k, 0) + v
-            for k, v in s["hooks"].items():
-                merged["hooks"][k] = merged["hooks"].get(k, 0) + v
-            for k, v in s["maxf"].items():
-                merged["maxf"][k] = max(merged["maxf"].get(k, 0.0), v)
-            for k, v in s["samples"].items():
-                merged["samples"].setdefault(k, [])
-                if len(merged["samples"][k]) < 1:
-                    merged["samples"][k].extend(v[:1])
+            merge_into(merged, {"cases": s["cases"], "evals": s["evals"], "shapes": set(s["shapes"]), "truncated": s["truncated"],
+                                "counters": s["counters"], "hooks": s["hooks"], "maxf": s["maxf"], "samples": s["samples"],
+                                "viols": [], "harness_errors": [], "inconclusive": [], "notes": []})
         merged["viols"].extend(r.viols)
         if r.harness_error:
             merged["harness_errors"].append("shard %d: %s" % (i, r.harness_error))
             continue
+        kind, frame = sanitizer_report(r.stderr)
+        if kind:
+            sig = "%s:%s" % (kind, frame or "dependency-only")
+            if frame:
+                merged["viols"].append({"t": "viol", "property": prop, "index": r.last_case if r.last_case is not None else -1,
+                                        "sig": sig, "detail": r.stderr[-3000:], "shard": i})
+            else:
+                merged["notes"].append("sanitizer report without a bio:: frame (dependency only) in shard %d: %s" % (i, r.stderr[-800:]))
+            continue
         if r.summary is None:
             # the worker died (abort, signal, watchdog) without a summary: isolate the case
-            kind, frame = sanitizer_report(r.stderr)
-            if kind:
-                sig = "%s:%s" % (kind, frame or "dependency-only")
-                if frame:
-                    merged["viols"].append({"t": "viol", "property": prop, "index": -1, "sig": sig,
-                                            "detail": r.stderr[-3000:], "shard": i})
-                else:
-                    merged["notes"].append("sanitizer report without bio:: frame in shard %d: %s" % (i, r.stderr[-800:]))
-                continue
-            iso = isolate(binp, prop, tier, seed, cases, jobs, i, timeout, env, prefix, extra)
+            iso = isolate(prog, prop, tier, seed, worker_cmd(i, announce=True), timeout, env, extra, use_limits)
             if iso[0] == "violation":
                 merged["viols"].append(iso[1])
             else:
@@ -230,19 +251,17 @@ def run_pass(binp, prop, tier, seed, cases, jobs, deadline_ms, timeout, env=None
     return merged
 
 
-def isolate(binp, prop, tier, seed, cases, jobs, shard, timeout, env, prefix, extra):
+def isolate(prog, prop, tier, seed, announce_cmd, timeout, env, extra, use_limits):
     """A worker died without summary. Re-run the shard announcing every case, then re-run the last
     announced case alone; a reproducible death is a violation, anything else is inconclusive."""
-    cmd = (prefix or []) + [binp, "worker", prop, "--tier", tier, "--seed", str(seed), "--shard", str(shard),
-                            "--nshards", str(jobs), "--cases", str(cases), "--announce"] + (extra or [])
-    r = run_proc(cmd, env=env, timeout=timeout)
+    r = run_proc(announce_cmd, env=env, timeout=timeout, use_limits=use_limits)
     if r.summary is not None:
-        return ("inconclusive", "shard %d died once (rc unknown) but completed when re-run" % shard)
+        return ("inconclusive", "a shard of %s died once but completed when re-run" % prop)
     if r.last_case is None:
-        return ("inconclusive", "shard %d died before announcing a case: rc=%s %s" % (shard, r.rc, r.stderr[-300:]))
+        return ("inconclusive", "a shard of %s died before announcing a case: rc=%s %s" % (prop, r.rc, r.stderr[-300:]))
     g = r.last_case
-    cmd = (prefix or []) + [binp, "replay", prop, "--tier", tier, "--seed", str(seed), "--index", str(g)] + (extra or [])
-    r2 = run_proc(cmd, env=env, timeout=max(120, timeout // 4))
+    cmd = prog + ["replay", prop, "--tier", tier, "--seed", str(seed), "--index", str(g)] + (extra or [])
+    r2 = run_proc(cmd, env=env, timeout=max(120, timeout // 4), use_limits=use_limits)
     if r2.summary is None and not r2.harness_error:
         why = "timeout (watchdog)" if r2.timed_out else "rc=%s" % r2.rc
         if r2.timed_out:
@@ -250,7 +269,7 @@ def isolate(binp, prop, tier, seed, cases, jobs, shard, timeout, env, prefix, ex
             return ("inconclusive", "case %d of %s: watchdog fired twice (%s)" % (g, prop, why))
         return ("violation", {"t": "viol", "property": prop, "index": g, "sig": "abort:process-died",
                               "detail": "process died reproducibly on this case (%s): %s" % (why, r2.stderr[-1500:])})
-    return ("inconclusive", "case %d killed the shard once but not when replayed alone" % g)
+    return ("inconclusive", "case %d killed its shard once but not when replayed alone" % g)
 
 
 # ------------------------------------------------------------------ known findings
@@ -325,6 +344,8 @@ def main(argv):
         passes.append({"pass": name, "worker_tier": wtier, "cases": m["cases"], "evaluations": m["evals"],
                        "distinct_shapes": len(m["shapes"]), "truncated_by_deadline": m["truncated"],
                        "violations_seen": len(m["viols"]), "desc": extra_desc})
+        log("[pass] %s: cases=%d evaluations=%d violations_seen=%d inconclusive=%d%s" % (
+            name.split("(")[0], m["cases"], m["evals"], len(m["viols"]), len(m["inconclusive"]), " TRUNCATED" if m["truncated"] else ""))
         for v in m["viols"]:
             v["pass"] = name
             v["worker_tier"] = wtier
@@ -440,6 +461,9 @@ def main(argv):
         "wall_s": round(time.time() - t0, 2),
         "violations": len(unknown),
     }
+    if only:
+        log('[dev] --only-pass given: evidence file not rewritten')
+        return rc
     os.makedirs(EVID, exist_ok=True)
     tmp = os.path.join(EVID, "%s.json.tmp" % prop)
     json.dump(ev, open(tmp, "w"), indent=1)
@@ -452,6 +476,18 @@ def main(argv):
     return rc
 
 
+def selftest(prog, what, env, expect):
+    """Run a deliberate defect under the sanitizer build; True iff the tool reported it."""
+    r = run_proc(prog + ["selftest", what], env=env, timeout=900, use_limits=False)
+    return expect in r.stderr, r.stderr[-300:]
+
+
+def quick_info(prog, prop, tier, env=None):
+    p = subprocess.run(prog + ["info", prop, "--tier", tier], stdout=subprocess.PIPE, stderr=subprocess.PIPE, text=True,
+                       cwd=HARNESS, env=dict(base_env(), **(env or {})))
+    return json.loads(p.stdout.strip().splitlines()[-1])
+
+
 def run_extra_pass(pname, prop, seed, jobs, cfg):
     """Thorough-tier extra passes. Returns (merged, worker tier, description) or (None, _, reason)."""
     sizes = cfg.get("pass_cases", {})
@@ -459,132 +495,54 @@ def run_extra_pass(pname, prop, seed, jobs, cfg):
         binp, out, dt = build("plain")
         if not binp:
             return None, None, "plain build failed: " + out[-400:]
-        n = sizes.get("plain", 0)
-        m = run_pass(binp, prop, "quick", seed + 1000, n, jobs, 600_000, 1800) if n else None
-        if m is None:
-            info = json.loads(subprocess.run([binp, "info", prop, "--tier", "quick"], stdout=subprocess.PIPE, text=True, cwd=HARNESS).stdout)
-            m = run_pass(binp, prop, "quick", seed + 1000, info["default_cases"], jobs, 600_000, 1800)
-        return m, "quick", "plain release profile (no overflow checks / debug assertions), quick-size workload, seed+1000"
+        n = sizes.get("plain") or quick_info([binp], prop, "quick")["default_cases"]
+        m = run_pass(binp, prop, "quick", seed + 1000, n, jobs, 600_000, 1800)
+        return m, "quick", "plain release profile (no overflow checks, no debug assertions), quick-size workload of %d cases, seed+1000" % n
     if pname == "asan":
         binp, out, dt = build("asan")
         if not binp:
             return None, None, "ASan build failed: " + out[-400:]
-        info = json.loads(subprocess.run([binp, "info", prop, "--tier", "quick"], stdout=subprocess.PIPE, text=True, cwd=HARNESS,
-                                         env=dict(base_env(), ASAN_OPTIONS="detect_leaks=0")).stdout)
-        n = sizes.get("asan", max(info["directed"] + 200, info["default_cases"] // 8))
         env = {"ASAN_OPTIONS": "halt_on_error=1:abort_on_error=0:detect_leaks=1:exitcode=77"}
+        fired, tail = selftest([binp], "oob", env, "AddressSanitizer")
+        if not fired:
+            return None, None, "ASan self-test (deliberate out-of-bounds read) was not reported: " + tail
+        info = quick_info([binp], prop, "quick", {"ASAN_OPTIONS": "detect_leaks=0"})
+        n = sizes.get("asan") or max(info["directed"] + 200, info["default_cases"] // 10)
         # ASan reserves a huge virtual address range: no RLIMIT_AS for this pass
-        m = run_pass_nolimit(binp, prop, "quick", seed + 2000, n, jobs, env)
-        return m, "quick", "AddressSanitizer+LeakSanitizer build (nightly -Zsanitizer=address), %d cases, seed+2000" % n
+        m = run_pass(binp, prop, "quick", seed + 2000, n, jobs, 900_000, 3600, env=env, use_limits=False)
+        return m, "quick", "AddressSanitizer+LeakSanitizer build (nightly -Zsanitizer=address; self-test fired), %d cases, seed+2000" % n
     if pname == "tsan":
         binp, out, dt = build("tsan")
         if not binp:
             return None, None, "TSan build failed: " + out[-400:]
-        n = sizes.get("tsan", 400)
         env = {"TSAN_OPTIONS": "halt_on_error=1:exitcode=66"}
-        m = None
-        for rep in range(3):
-            mm = run_pass_nolimit(binp, prop, "quick", seed + 3000 + rep, n, min(jobs, 4), env, extra=["--threads-only"])
-            if m is None:
-                m = mm
-            else:
-                for k in ("cases", "evals"):
-                    m[k] += mm[k]
-                m["shapes"].update(mm["shapes"])
-                m["viols"].extend(mm["viols"])
-                m["harness_errors"].extend(mm["harness_errors"])
-                m["inconclusive"].extend(mm["inconclusive"])
-                m["notes"].extend(mm["notes"])
-        return m, "quick", "ThreadSanitizer build (-Zsanitizer=thread -Zbuild-std), threaded workload only, 3 repetitions"
+        fired, tail = selftest([binp], "race", env, "ThreadSanitizer")
+        if not fired:
+            return None, None, "TSan self-test (deliberate data race) was not reported: " + tail
+        n = sizes.get("tsan", 400)
+        m = empty_merge()
+        for rep in range(5):
+            mm = run_pass(binp, prop, "quick", seed + 3000 + rep, n, min(jobs, 4), 900_000, 3600, env=env,
+                          extra=["--threads-only"], use_limits=False)
+            merge_into(m, mm)
+        return m, "quick", "ThreadSanitizer build (-Zsanitizer=thread -Zbuild-std; self-test fired), threaded workload only, 5 repetitions x %d cases" % n
     if pname == "miri":
         n = sizes.get("miri", 24)
         seeds = cfg.get("miri_seeds", 1)
-        prefix = ["cargo", NIGHTLY, "miri", "run", "--offline", "--target-dir", "target-miri", "--quiet", "--"]
-        flags = "-Zmiri-disable-isolation"
-        m = None
-        shards = min(jobs, 8)
-        # one miri process per shard; binp is replaced by the cargo prefix, so the "binary" is a dummy arg
-        for s in range(seeds):
-            env = {"MIRIFLAGS": flags + (" -Zmiri-seed=%d" % s if seeds > 1 else "")}
-            mm = run_pass_cargo(prefix, prop, "tiny", seed + 4000, n, shards, env)
-            if m is None:
-                m = mm
-            else:
-                for k in ("cases", "evals"):
-                    m[k] += mm[k]
-                m["shapes"].update(mm["shapes"])
-                for kk in ("viols", "harness_errors", "inconclusive", "notes"):
-                    m[kk].extend(mm[kk])
-        return m, "tiny", "Miri (UB / data-race interpreter), tiny sizes, %d cases x %d scheduler seed(s)" % (n, seeds)
-    return None, None, "unknown pass"
-
-
-def run_pass_nolimit(binp, prop, tier, seed, cases, jobs, env, extra=None):
-    global limits
-    saved = limits
-    limits_off = lambda: None
-    try:
-        globals()["limits"] = limits_off
-        return run_pass(binp, prop, tier, seed, cases, jobs, 1_200_000, 3600, env=env, extra=extra)
-    finally:
-        globals()["limits"] = saved
-
-
-def run_pass_cargo(prefix, prop, tier, seed, cases, jobs, env):
-    """Like run_pass but the worker is started through `cargo miri run -- ...`."""
-    global limits
-    saved = limits
-    try:
-        globals()["limits"] = lambda: None
-        # first invocation builds; do it once serially to avoid 8 concurrent builds
-        warm = run_proc(prefix + ["info", prop, "--tier", tier], env=env, timeout=1800, use_limits=False)
+        prog = ["cargo", NIGHTLY, "miri", "run", "--offline", "--target-dir", "target-miri", "--quiet", "--"]
+        base = "-Zmiri-disable-isolation"
+        # the first invocation builds; do it once serially
+        warm = run_proc(prog + ["info", prop, "--tier", "tiny"], env={"MIRIFLAGS": base}, timeout=2400, use_limits=False)
         if warm.rc != 0:
-            m = {"cases": 0, "evals": 0, "shapes": set(), "counters": {}, "hooks": {}, "maxf": {}, "samples": {},
-                 "viols": [], "truncated": False, "harness_errors": [], "inconclusive": [],
-                 "notes": ["miri build/run failed: " + warm.stderr[-500:]]}
-            return m
-        return run_pass(prefix[0], prop, tier, seed, cases, jobs, 3_000_000, 5400, env=env, prefix=None,
-                        extra=None) if False else _run_pass_prefix(prefix, prop, tier, seed, cases, jobs, env)
-    finally:
-        globals()["limits"] = saved
-
-
-def _run_pass_prefix(prefix, prop, tier, seed, cases, jobs, env):
-    # run_pass builds cmd as prefix + [binp, "worker", ...]; with cargo-miri there is no binary argument
-    class _B(str):
-        pass
-    results = [None] * jobs
-    ths = []
-
-    def one(i):
-        cmd = prefix + ["worker", prop, "--tier", tier, "--seed", str(seed), "--shard", str(i), "--nshards", str(jobs),
-                        "--cases", str(cases)]
-        results[i] = run_proc(cmd, env=env, timeout=5400, use_limits=False)
-
-    for i in range(jobs):
-        th = threading.Thread(target=one, args=(i,))
-        th.start()
-        ths.append(th)
-    for th in ths:
-        th.join()
-    merged = {"cases": 0, "evals": 0, "shapes": set(), "counters": {}, "hooks": {}, "maxf": {}, "samples": {},
-              "viols": [], "truncated": False, "harness_errors": [], "inconclusive": [], "notes": []}
-    for i, r in enumerate(results):
-        if r.summary:
-            merged["cases"] += r.summary["cases"]
-            merged["evals"] += r.summary["evals"]
-            merged["shapes"].update(r.summary["shapes"])
-        merged["viols"].extend(r.viols)
-        if r.harness_error:
-            merged["harness_errors"].append("miri shard %d: %s" % (i, r.harness_error))
-        elif r.summary is None:
-            kind, frame = sanitizer_report(r.stderr)
-            if kind and frame:
-                merged["viols"].append({"t": "viol", "property": prop, "index": -1, "sig": "%s:%s" % (kind, frame),
-                                        "detail": r.stderr[-3000:]})
-            elif kind:
-                merged["notes"].append("miri report without bio frame (dependency-only): " + r.stderr[-1200:])
-            else:
-                merged["inconclusive"].append("miri shard %d ended without summary rc=%s timed_out=%s: %s" % (
-                    i, r.rc, r.timed_out, r.stderr[-400:]))
-    return merged
+            return None, None, "miri build/run failed: " + warm.stderr[-500:]
+        fired, tail = selftest(prog, "oob", {"MIRIFLAGS": base}, "Undefined Behavior")
+        if not fired:
+            return None, None, "Miri self-test (deliberate out-of-bounds read) was not reported: " + tail
+        shards = min(jobs, 8)
+        m = empty_merge()
+        for s in range(seeds):
+            env = {"MIRIFLAGS": base + (" -Zmiri-seed=%d" % s if seeds > 1 else "")}
+            mm = run_pass(None, prop, "tiny", seed + 4000, n, shards, 3_000_000, 5400, env=env, prefix=prog, use_limits=False)
+            merge_into(m, mm)
+        return m, "tiny", "Miri (UB / data-race interpreter; self-test fired), tiny sizes, %d cases x %d scheduler seed(s)" % (n, seeds)
+    return None, None, "unknown pass"
